@@ -60,7 +60,11 @@ func (server *GripServer) ListTables(empty *gripql.Empty, srv gripql.Query_ListT
 
 	for k := range server.sources {
 		for col := range client.GetCollections(context.Background(), k) {
-			info, _ := client.GetCollectionInfo(context.Background(), k, col)
+			info, err := client.GetCollectionInfo(context.Background(), k, col)
+			if err != nil || info == nil {
+				log.WithFields(log.Fields{"error": err, "source": k, "collection": col}).Error("ListTables: GetCollectionInfo")
+				continue
+			}
 			srv.Send(&gripql.TableInfo{Source: k, Name: col, Fields: info.SearchFields, LinkMap: info.LinkMap})
 		}
 	}
